@@ -85,6 +85,8 @@ def check(ctx: Ctx):
     for f in (init, on_message, post_msg, start, pause):
         ctx.touch(f)
 
+    cls_info = repo.cls(MOD, CLS)
+    # a class-level container is shared by all instances even when __init__ also creates one: only flag when __init__ does not
     # buffers initialised as empty lists
     for buf in BUFS:
         found = False
@@ -95,9 +97,28 @@ def check(ctx: Ctx):
                 okv = (isinstance(v, ast.List) and not v.elts) or (isinstance(v, ast.Call) and call_name(v) in ("list", "deque") and not v.args)
                 ctx.check(okv, "R-FIFO.producer", f"init {buf}", init, n, f"{buf} must start as an empty sequence")
         if not found:
-            raise AnalysisError(f"{buf} is not initialised in {CLS}.__init__")
+            cls_attr = cls_info.class_attrs.get(buf) if cls_info is not None else None
+            if cls_attr is not None:
+                ctx.bad("R-FIFO.owner", f"{buf} is created per instance", cls_info, cls_attr,
+                        f"{buf} only exists as a class attribute: one list shared by every computation of the process - messages held by one computation "
+                        "are flushed (and attributed) by whichever computation resumes first")
+            else:
+                raise AnalysisError(f"{buf} is not initialised in {CLS}.__init__")
 
     msg_algo = _const(repo, "pydcop.infrastructure.communication", "MSG_ALGO")
+    # the messaging layer must use the priority it is given as the queue key: the only rewrite allowed is None -> MSG_ALGO
+    mpost = repo.func("pydcop.infrastructure.communication", "Messaging.post_msg")
+    ctx.touch(mpost)
+    p_type = mpost.params[4] if len(mpost.params) > 4 else "msg_type"
+    rew = [n for n in walk_no_nested(mpost.node) if isinstance(n, (ast.Assign, ast.AugAssign)) and any(isinstance(t, ast.Name) and t.id == p_type for t in (n.targets if isinstance(n, ast.Assign) else [n.target]))]
+    for n in rew:
+        v = n.value if isinstance(n, ast.Assign) else None
+        okn = isinstance(v, ast.IfExp) and ((norm(v.test) == f"{p_type} is None" and norm(v.body) == "MSG_ALGO" and norm(v.orelse) == p_type) or
+                                            (norm(v.test) == f"{p_type} is not None" and norm(v.body) == p_type and norm(v.orelse) == "MSG_ALGO"))
+        ctx.check(okn, "R-FIFO.prio", "the messaging layer keeps the priority it is given (only None becomes MSG_ALGO)", mpost, n,
+                  "held messages are re-injected with a priority just below MSG_ALGO so that they precede newer algorithm messages: rewriting that priority "
+                  "in Messaging.post_msg puts them behind messages already queued")
+    ctx.check(len(rew) >= 1, "R-FIFO.prio", "priority normalisation site found in Messaging.post_msg", mpost, mpost.node, "")
 
     # ---------------------------------------------------------------- producers
     prod = {"_paused_messages_recv": on_message, "_paused_messages_post": post_msg}
@@ -430,6 +451,9 @@ def _stmt_at(m, node):
 
 _F = "pydcop/infrastructure/computations.py"
 VARIANTS = [
+    ("class_level_post_buffer", "pydcop/infrastructure/computations.py", ["        self._paused_messages_post = []  # type: List[Tuple[str, Any, int, Any]]\n", "    def __init__(self, name: str, *args, **kwargs):\n        super().__init__(*args, **kwargs)\n        self._name = name\n"],
+     ["", "    _paused_messages_post = []\n\n    def __init__(self, name: str, *args, **kwargs):\n        super().__init__(*args, **kwargs)\n        self._name = name\n"], "break", "R-FIFO.owner"),
+    ("messaging_flattens_priorities", "pydcop/infrastructure/communication.py", "        msg_type = MSG_ALGO if msg_type is None else msg_type\n", "        msg_type = MSG_ALGO if msg_type is None else msg_type\n        if msg_type > MSG_VALUE:\n            msg_type = MSG_ALGO\n", "break", "R-FIFO.prio"),
     ("start_lifo", _F, "            src, msg, t = self._paused_messages_recv.pop(0)\n            # Do NOT call on_message directly, that would block the\n            # agent's thread for a potentially long time during which we\n            # would not be able to handle any mgt message.\n            # Instead, inject the message with",
      "            src, msg, t = self._paused_messages_recv.pop()\n            # Do NOT call on_message directly, that would block the\n            # agent's thread for a potentially long time during which we\n            # would not be able to handle any mgt message.\n            # Instead, inject the message with", "break", "R-FIFO.consumer"),
     ("post_lifo", _F, "target, msg, prio, e = self._paused_messages_post.pop(0)", "target, msg, prio, e = self._paused_messages_post.pop(-1)", "break", "R-FIFO.consumer"),
